@@ -599,7 +599,7 @@ func main() {
 	o := hx.NewOut(f.Out)
 	defer o.Close()
 	nc := len(corpus)
-	n := nc + f.N(4000, 60000)
+	n := nc + f.N(4000, 40000)
 	for k := 0; k < n; k++ {
 		if !f.Want(k) {
 			continue
@@ -615,7 +615,9 @@ func main() {
 			genDecoderCase(w)
 			o.Count("case:decoder")
 		default:
+			longCase = f.Tier == "thorough" && k%12 == 5
 			genCase(w)
+			longCase = false
 			o.Count("case:ops")
 		}
 		o.Seen(strings.Join(w.sig, " "))
